@@ -202,6 +202,9 @@ func suffix(o Opts) string {
 	if o.Magic {
 		s += "-magic"
 	}
+	if o.TailTicks > 0 {
+		s += fmt.Sprintf("-gputail%d", o.TailTicks)
+	}
 	return s
 }
 
@@ -254,7 +257,6 @@ func Repro(calls int, o Opts) Scenario {
 		b := []byte{1, 3, 5, 7}
 		want := a
 		d.MemCopyH2D(ctx, buf, a)
-		tAfterFirst := w.Engine.CurrentTime()
 		if calls >= 3 {
 			d.MemCopyH2D(ctx, buf, b)
 			want = b
@@ -265,7 +267,6 @@ func Repro(calls int, o Opts) Scenario {
 		}
 		d.MemCopyD2H(ctx, out, buf)
 		expect(w, "MemCopyD2H-result", out, want)
-		tReturn := w.Engine.CurrentTime()
 		rt.Quiesce()
 		tEnd := w.Engine.CurrentTime()
 		ns := func(t float64) int64 { return int64(t*1e9 + 0.5) }
@@ -273,7 +274,7 @@ func Repro(calls int, o Opts) Scenario {
 		if Instrumented {
 			mem = w.DeviceBytes(ctxPID(ctx), buf, 4)
 		}
-		rt.Outcome(fmt.Sprintf("bytes: dev=%v host=%v; durations: %s; times: %s; now-when-first-call-returned=%d now-when-last-call-returned=%d; T_end(engine idle)=%d",
-			mem, out, w.Durations(), w.Times(), ns(float64(tAfterFirst)), ns(float64(tReturn)), ns(float64(tEnd))))
+		rt.Outcome(fmt.Sprintf("bytes: dev=%v host=%v; durations: %s; times: %s; T_end(engine idle)=%d",
+			mem, out, w.Durations(), w.Times(), ns(float64(tEnd))))
 	}}
 }
